@@ -17,6 +17,11 @@ impl Matchers {
     // this is not a true mut from ref, we use a cell here
     #[allow(clippy::mut_from_ref)]
     unsafe fn get(&self) -> &mut nucleo_matcher::Matcher {
+        #[cfg(nucleo_verif)]
+        crate::verif::point(
+            "matchers:get",
+            rayon::current_thread_index().map_or(u64::MAX, |i| i as u64),
+        );
         &mut *self.0[rayon::current_thread_index().unwrap()].get()
     }
 }
@@ -97,6 +102,8 @@ impl<T: Sync + Send + 'static> Worker<T> {
         let new_snapshot = self.items.par_snapshot(self.last_snapshot);
         if new_snapshot.end() != self.last_snapshot {
             let end = new_snapshot.end();
+            #[cfg(nucleo_verif)]
+            let in_flight_before = self.in_flight.len();
             let in_flight = Mutex::new(&mut self.in_flight);
             let items = new_snapshot.map(|(idx, item)| {
                 let Some(item) = item else {
@@ -107,6 +114,8 @@ impl<T: Sync + Send + 'static> Worker<T> {
                         idx: u32::MAX,
                     };
                 };
+                #[cfg(nucleo_verif)]
+                crate::verif::point("run:scan_poll", idx as u64);
                 if self.canceled.load(atomic::Ordering::Relaxed) {
                     return Match { score: 0, idx };
                 }
@@ -120,6 +129,8 @@ impl<T: Sync + Send + 'static> Worker<T> {
                 Match { score, idx }
             });
             self.matches.par_extend(items);
+            #[cfg(nucleo_verif)]
+            crate::verif::permute_in_flight(&mut self.in_flight[in_flight_before..]);
             self.last_snapshot = end;
         }
     }
@@ -153,6 +164,8 @@ impl<T: Sync + Send + 'static> Worker<T> {
     }
 
     pub(crate) unsafe fn run(&mut self, pattern_status: pattern::Status, cleared: bool) {
+        #[cfg(nucleo_verif)]
+        crate::verif::point("run:start", cleared as u64);
         self.running = true;
         self.was_canceled = false;
 
@@ -166,9 +179,13 @@ impl<T: Sync + Send + 'static> Worker<T> {
         if self.pattern.is_empty() {
             self.reset_matches();
             self.process_new_items_trivial();
+            #[cfg(nucleo_verif)]
+            crate::verif::point("run:before_flag", 0);
             if self.should_notify.load(atomic::Ordering::Relaxed) {
                 (self.notify)();
             }
+            #[cfg(nucleo_verif)]
+            crate::verif::point("run:exit", 0);
             return;
         }
 
@@ -176,6 +193,8 @@ impl<T: Sync + Send + 'static> Worker<T> {
             self.reset_matches();
         }
 
+        #[cfg(nucleo_verif)]
+        crate::verif::point("run:before_scan", pattern_status as u64);
         let mut unmatched = AtomicU32::new(0);
         if pattern_status != pattern::Status::Unchanged && !self.matches.is_empty() {
             self.process_new_items_trivial();
@@ -185,6 +204,8 @@ impl<T: Sync + Send + 'static> Worker<T> {
                 .par_iter_mut()
                 .take_any_while(|_| !self.canceled.load(atomic::Ordering::Relaxed))
                 .for_each(|match_| {
+                    #[cfg(nucleo_verif)]
+                    crate::verif::point("run:rescore_item", match_.idx as u64);
                     if match_.idx == u32::MAX {
                         debug_assert_eq!(match_.score, 0);
                         unmatched.fetch_add(1, atomic::Ordering::Relaxed);
@@ -204,6 +225,8 @@ impl<T: Sync + Send + 'static> Worker<T> {
             self.process_new_items(&unmatched);
         }
 
+        #[cfg(nucleo_verif)]
+        crate::verif::point("run:before_sort", 0);
         let canceled = par_quicksort(
             &mut self.matches,
             |match1, match2| {
@@ -240,15 +263,21 @@ impl<T: Sync + Send + 'static> Worker<T> {
             &self.canceled,
         );
 
+        #[cfg(nucleo_verif)]
+        crate::verif::point("run:after_sort", canceled as u64);
         if canceled {
             self.was_canceled = true;
         } else {
             self.matches
                 .truncate(self.matches.len() - take(unmatched.get_mut()) as usize);
+            #[cfg(nucleo_verif)]
+            crate::verif::point("run:before_flag", 0);
             if self.should_notify.load(atomic::Ordering::Relaxed) {
                 (self.notify)();
             }
         }
+        #[cfg(nucleo_verif)]
+        crate::verif::point("run:exit", 0);
     }
 
     fn reset_matches(&mut self) {
